@@ -336,3 +336,133 @@ def _normalize_raises(t):
     data = t.inp("data", InArr("data", (2, 2)))
     paths = t.run(UT, "normalize", [data, [(Fraction(0), Fraction(1))]])
     t.prove("bounds_length_mismatch_raises_ValueError", z3.BoolVal(bool(paths) and all(p.kind == "raise" and p.value[0] == "ValueError" for p in paths)))
+
+
+# ----------------------------------------------------------------------------------------------
+# Dataset.__init__: inputs min-max scaled to [0, 1], objectives standardised (zero mean, unit population variance),
+# dimensions recorded, cardinality mismatch rejected.  The sklearn scalers are used BY CONTRACT (default options).
+# ----------------------------------------------------------------------------------------------
+DS = "vopy/datasets/dataset.py"
+
+
+def _dataset_init(N, d, m, declared=None):
+    @task("C20", "Dataset.__init__[N=%d,d=%d,m=%d,declared=%s]" % (N, d, m, declared if declared is not None else N))
+    def _t(t):
+        t.mode = "N=%d designs, %d inputs, %d objectives; raw data symbolic" % (N, d, m)
+        X = t.inp("in_data", InArr("x", (N, d)))
+        Y = t.inp("out_data", InArr("y", (N, m)))
+        XS, YS = t.inputs["in_data"].snapshot, t.inputs["out_data"].snapshot
+        obj = SObj(cls_ref(DS, "Dataset"), {"in_data": X, "out_data": Y, "_cardinality": declared if declared is not None else N,
+                                            "_in_dim": d, "_out_dim": m})
+        paths = t.run(DS, "Dataset.__init__", [], self_val=obj)
+        t.must_fail()
+        if declared is not None and declared != N:
+            t.prove("cardinality_mismatch_raises_ValueError", z3.BoolVal(bool(paths) and all(p.kind == "raise" and p.value[0] == "ValueError" for p in paths)))
+            return
+        t.no_raise(paths)
+
+        def cols(A, n):
+            return [[A.a[i, c] for i in range(A.shape[0])] for c in range(n)]
+
+        def goal(p):
+            o = find_obj(p.st, obj.oid)
+            xi, yo = o.fields.get("in_data"), o.fields.get("out_data")
+            if getattr(xi, "shape", None) != (N, d) or getattr(yo, "shape", None) != (N, m):
+                return False
+            cs = [z3.BoolVal(o.fields.get("in_dim") == d and o.fields.get("out_dim") == m)]
+            for c, col in enumerate(cols(XS, d)):
+                mn, mx = col[0], col[0]
+                for v in col[1:]:
+                    mn = V.ite(V.lt(v, mn), v, mn)
+                    mx = V.ite(V.gt(v, mx), v, mx)
+                rng = V.sub(mx, mn)
+                sc = V.ite(V.eq(rng, 0), Fraction(1), rng)
+                for i in range(N):
+                    cs.append(V.R(xi.a[i, c]) == V.R(V.div(V.sub(col[i], mn), sc)))      # (x - min) / (max - min): in [0, 1]
+            for c, col in enumerate(cols(YS, m)):
+                tot = col[0]
+                for v in col[1:]:
+                    tot = V.add(tot, v)
+                mean = V.div(tot, N)
+                var = Fraction(0)
+                for v in col:
+                    var = V.add(var, V.mul(V.sub(v, mean), V.sub(v, mean)))
+                var = V.div(var, N)
+                sd = V.ite(V.eq(var, 0), Fraction(1), L.sqrt_scalar(var))
+                for i in range(N):
+                    cs.append(V.R(yo.a[i, c]) == V.R(V.div(V.sub(col[i], mean), sd)))    # (y - mean) / population std
+            return z3.And(*cs)
+        t.prove_each_path("inputs_min_max_scaled_and_objectives_standardised_columnwise_dimensions_recorded", paths, goal, timeout_ms=max(t.timeout_ms, 60000))
+        if N == 2:
+            # consequences for the smallest case (the general statements are properties of the two formulas, not of VOPy code)
+            def cons(p):
+                o = find_obj(p.st, obj.oid)
+                xi, yo = o.fields.get("in_data"), o.fields.get("out_data")
+                cs = []
+                for c in range(d):
+                    cs += [z3.And(V.R(xi.a[i, c]) >= 0, V.R(xi.a[i, c]) <= 1) for i in range(N)]
+                for c in range(m):
+                    cs.append(V.R(yo.a[0, c]) + V.R(yo.a[1, c]) == 0)
+                return z3.And(*cs)
+            t.prove_each_path("N=2:inputs_in_unit_interval_and_objective_columns_sum_to_zero", paths, cons, timeout_ms=max(t.timeout_ms, 60000))
+    return _t
+
+
+_dataset_init(3, 2, 2)
+_dataset_init(2, 1, 2)
+_dataset_init(3, 2, 2, declared=4)
+
+
+def _dataset_loader(cls, in_dim, out_dim, negate_first=False):
+    @task("C20", "%s.__init__[loader]" % cls)
+    def _t(t):
+        """Bundled dataset loader: the file's first _in_dim columns are the inputs, the remaining ones the objectives (SNW: first
+        objective negated), copied, then handed to Dataset.__init__ (called by contract; its body is the task above).
+        The file content itself (and hence the declared cardinality) is external: rows = 3 here, _cardinality overridden."""
+        from .c06_evaluating import Stub
+        rows = 3
+        data = t.inp("file_data", InArr("f", (rows, in_dim + out_dim)))
+        FS = t.inputs["file_data"].snapshot
+        obj = SObj(cls_ref(DS, cls), {"_cardinality": rows})
+        seen = []
+
+        def lib_hook(ex, st, dotted, args, kwargs, node):
+            if dotted == "importlib.resources.files":
+                return Stub("resources")
+            if dotted in ("numpy.load", "numpy.genfromtxt"):
+                return data
+            return NotImplemented
+        t.hooks["lib"] = lib_hook
+
+        def c_super(ex, st, self_val, args, kwargs, node):
+            seen.append(dict(self_val.fields))
+            st.roots.setdefault("super_calls", []).append(dict(self_val.fields))
+            return [(st, None)]
+        t.contracts[DS + "::Dataset.__init__"] = c_super
+        paths = t.run(DS, cls + ".__init__", [], self_val=obj)
+        t.must_fail()
+        t.no_raise(paths)
+
+        def goal(p):
+            calls = p.st.roots.get("super_calls") or []
+            if len(calls) != 1:
+                return False
+            xi, yo = calls[0].get("in_data"), calls[0].get("out_data")
+            if getattr(xi, "shape", None) != (rows, in_dim) or getattr(yo, "shape", None) != (rows, out_dim):
+                return False
+            cs = []
+            for i in range(rows):
+                for c in range(in_dim):
+                    cs.append(V.R(xi.a[i, c]) == V.R(FS.a[i, c]))
+                for c in range(out_dim):
+                    want = V.R(FS.a[i, in_dim + c])
+                    cs.append(V.R(yo.a[i, c]) == (-want if (negate_first and c == 0) else want))
+            return z3.And(*cs)
+        t.prove_paths("first_in_dim_columns_are_inputs_the_rest_objectives_then_Dataset_init", paths, goal)
+    return _t
+
+
+_dataset_loader("Test", 4, 2)
+_dataset_loader("SNW", 3, 2, negate_first=True)
+_dataset_loader("DiskBrake", 4, 2)
+_dataset_loader("VehicleSafety", 5, 3)
